@@ -64,6 +64,17 @@ def rule_hash(ctx, rep):
             if chain:
                 r.finding(inst, where, "hash-ordered iteration is collected into an ordered container (%s): the order differs between runs and insertion histories" % ">".join(chain))
             elif inst in ORDER_FREE:
+                if "handle_diagnostics|into_iter#2" in inst or "handle_diagnostics|into_iter#3" in inst:
+                    # "the numeric ids are opaque" holds only if no id is special: map_label falls back to id 0 for a label without a
+                    # known file, so id 0 must have been given out before this hash-ordered loop
+                    adds = [c2 for c2 in b.calls() if (c2.callee or "").endswith("SimpleFiles::add") or (c2.callee or "").endswith("files::SimpleFiles::<Name, Source>::add")]
+                    dom = b.dominators()
+                    pre = [c2 for c2 in adds if c2.bb in dom.get(c.bb, set()) and c2.bb != c.bb]
+                    fallback = any((c3.callee or "").endswith("Option::unwrap_or") and "usize" in (c3.ga or "") for b3 in ctx.prog.bodies.values() if norm(b3.id).startswith("ironplcc::cli::map_label") for c3 in b3.calls())
+                    if fallback and not pre:
+                        r.finding(inst + "|first-id-in-hash-order", where, "map_label falls back to file id 0 for a label without a known file, and id 0 is given to whichever file the hash set "
+                                  "yields first: a file-less diagnostic (P0030) is shown at a different file from run to run")
+                        continue
                 r.justified(inst, "order-free: " + ORDER_FREE[inst], where)
             else:
                 r.finding(inst, where, "unclassified iteration over a hash collection (not in the order-free table)")
